@@ -108,6 +108,14 @@ pub struct Profile {
     /// lifetimes, const parameters, `concrete(..)`, defaults that mention earlier parameters,
     /// up to three type parameters (TS-only modules)
     pub rich_generics: bool,
+    /// percentage of modules in which one type's TypeScript name is made an extension of
+    /// another's (`Shape` / `ShapeList`) and both are put in one file
+    pub prefix_names: u32,
+    /// percentage of modules in which two distinct types get the *same* TypeScript name in
+    /// different files (never both used by one declaration)
+    pub twin_names: u32,
+    /// block-style docs and line docs whose lines start in column 0 (percentage of lines)
+    pub doc_col0: u32,
 }
 
 impl Profile {
@@ -147,6 +155,9 @@ impl Profile {
             blank_block_lines: false,
             known_optional_fields_generic: false,
             rich_generics: false,
+            prefix_names: 0,
+            twin_names: 0,
+            doc_col0: 20,
         }
     }
 }
@@ -245,6 +256,7 @@ struct Cx<'p> {
     /// definitions already flattened into the container (struct / struct variant) being generated
     flattened_here: std::collections::BTreeSet<usize>,
     doc_counter: usize,
+    used_files: std::collections::BTreeSet<String>,
 }
 
 fn has_default(ty: &TyExpr) -> bool {
@@ -588,6 +600,11 @@ impl Cx<'_> {
         // having to predict the emitted property name
         self.doc_counter += 1;
         lines[0] = format!(" [doc#{}]{}", self.doc_counter, lines[0]);
+        for l in lines.iter_mut().skip(1) {
+            if l.starts_with(' ') && !l[1..].starts_with('/') && !l[1..].starts_with('!') && t.pct(self.p.doc_col0) {
+                *l = l[1..].to_string();
+            }
+        }
         if inner && self.p.doc_merge_safe {
             lines.retain(|l| !l.contains("export type"));
             if lines.is_empty() {
@@ -749,8 +766,14 @@ impl Cx<'_> {
             attrs.export_to = Some(if t.pct(self.p.shared_files) {
                 // few distinct targets, so that several types of a module really meet in one file
                 t.pick(&["shared.ts", "models/common.ts", "models/common.ts", "a.b/types.ts"]).to_string()
-            } else if t.pct(30) {
-                format!("{d}{}_file.ts", ident.trim_start_matches("r#").to_lowercase())
+            } else if t.pct(35) {
+                // the same file *name* in different directories (`models/index.ts`, `mod/index.ts`)
+                let common = format!("{d}{}", t.pick(&["index.ts", "index.ts", "types.d.ts", "mod.ts"]));
+                if t.pct(50) && self.used_files.insert(common.clone()) {
+                    common
+                } else {
+                    format!("{d}{}_file.ts", ident.trim_start_matches("r#").to_lowercase())
+                }
             } else if d.is_empty() {
                 "./".to_string()
             } else {
@@ -799,11 +822,14 @@ impl Cx<'_> {
                     const_first = true;
                 }
             }
-            // concretise one parameter that has no default
-            if t.pct(30) {
-                let k = t.choose(n);
-                if params[k].default.is_none() && !params.iter().any(|p| matches!(&p.default, Some(d) if mentions_param(d, &params[k].name))) {
-                    params[k].concrete = Some(TyExpr::Prim(*t.pick(&["i32", "String", "u64"])));
+            // concretise one or two parameters (with or without a default of their own) that no
+            // default mentions
+            if t.pct(35) {
+                for _ in 0..1 + t.choose(2) {
+                    let k = t.choose(n);
+                    if !params.iter().any(|p| matches!(&p.default, Some(d) if mentions_param(d, &params[k].name))) {
+                        params[k].concrete = Some(TyExpr::Prim(*t.pick(&["i32", "String", "u64"])));
+                    }
                 }
             }
         } else if !self.p.rich_generics && t.pct(self.p.generics) {
@@ -1073,14 +1099,72 @@ pub fn prim_ts(p: &str) -> &'static str {
 }
 
 /// Generate one module from a tape.
+/// Name collisions a real code base has: a name that extends another name in the same file, and
+/// two types with one TypeScript name in different files.
+fn name_games(cx: &mut Cx, t: &mut Tape) {
+    let n = cx.types.len();
+    if n >= 2 && cx.p.shared_files > 0 && t.pct(cx.p.prefix_names) {
+        let a = t.choose(n);
+        let b = (a + 1 + t.choose(n - 1)) % n;
+        if cx.types[b].attrs.rename.is_none() {
+            let cand = format!("{}{}", cx.types[a].ts_name(), t.pick(&["List", "2", "_", "s"]));
+            if cx.names.claim(&cand) {
+                let file = match &cx.types[a].attrs.export_to {
+                    Some(f) if !f.ends_with('/') => f.clone(),
+                    _ => "models/common.ts".to_string(),
+                };
+                cx.types[a].attrs.export_to = Some(file.clone());
+                cx.types[b].attrs.export_to = Some(file);
+                cx.types[b].attrs.rename = Some(cand);
+            }
+        }
+    }
+    if n >= 3 && t.pct(cx.p.twin_names) {
+        // all pairs no *file* sees together (j moves into a file of its own)
+        let closures: Vec<std::collections::BTreeSet<usize>> = (0..n)
+            .map(|d| {
+                let mut c = model::inline_closure(&cx.types, d);
+                c.insert(d);
+                c
+            })
+            .collect();
+        let mut pairs = vec![];
+        for i in 0..n {
+            for j in 0..n {
+                if i == j || cx.types[j].attrs.rename.is_some() {
+                    continue;
+                }
+                let mut files: std::collections::BTreeMap<String, std::collections::BTreeSet<usize>> = Default::default();
+                for k in 0..n {
+                    let key = if k == j { "<own file>".to_string() } else { cx.types[k].expected_path() };
+                    files.entry(key).or_default().extend(closures[k].iter().copied());
+                }
+                if !files.values().any(|c| c.contains(&i) && c.contains(&j)) {
+                    pairs.push((i, j));
+                }
+            }
+        }
+        if !pairs.is_empty() {
+            let (i, j) = *t.pick(&pairs);
+            let name = cx.types[i].ts_name();
+            let taken = cx.types.iter().enumerate().any(|(k, o)| k != i && o.ts_name() == name);
+            if !taken {
+                cx.types[j].attrs.rename = Some(name);
+                cx.types[j].attrs.export_to = Some(t.pick(&["twin/", "twin/sub/", "models/twin/"]).to_string());
+            }
+        }
+    }
+}
+
 pub fn gen_module(words: &[u32], profile: &Profile, name: &str) -> Module {
     let mut t = Tape::new(words);
-    let mut cx = Cx { p: profile, names: Names::new(), types: vec![], flattened_here: Default::default(), doc_counter: 0 };
+    let mut cx = Cx { p: profile, names: Names::new(), types: vec![], flattened_here: Default::default(), doc_counter: 0, used_files: Default::default() };
     let n = 1 + t.choose(profile.max_types);
     for _ in 0..n {
         let td = cx.gen_type(&mut t);
         cx.types.push(td);
     }
+    name_games(&mut cx, &mut t);
     let mut insts = vec![];
     let simple_args: Vec<TyExpr> = vec![
         TyExpr::Prim("i32"),
@@ -1105,7 +1189,18 @@ pub fn gen_module(words: &[u32], profile: &Profile, name: &str) -> Module {
                         args.push(c.clone());
                         continue;
                     }
-                    let user_cands: Vec<usize> = (0..i).filter(|j| cx.types[*j].params.is_empty() && cx.types[*j].lifetimes.is_empty() && cx.types[*j].consts.is_empty()).collect();
+                    // (a type argument whose TypeScript name is also used inside the generic would
+                    // put two different `Name`s into one declaration)
+                    let names_inside: Vec<String> = (0..cx.types.len())
+                        .filter(|k| cx.types[*k].expected_path() == td.expected_path())
+                        .flat_map(|k| model::inline_closure(&cx.types, k).into_iter().chain([k]))
+                        .map(|j| cx.types[j].ts_name())
+                        .collect();
+                    let twin_of = |j: usize| cx.types.iter().enumerate().any(|(k, o)| k != j && o.ts_name() == cx.types[j].ts_name());
+                    let user_cands: Vec<usize> = (0..i)
+                        .filter(|j| cx.types[*j].params.is_empty() && cx.types[*j].lifetimes.is_empty() && cx.types[*j].consts.is_empty())
+                        .filter(|j| !(twin_of(*j) && names_inside.contains(&cx.types[*j].ts_name())))
+                        .collect();
                     if !user_cands.is_empty() && t.pct(35) {
                         args.push(TyExpr::User(*t.pick(&user_cands), vec![]));
                     } else {
